@@ -1,5 +1,8 @@
 (* C11, multi channel: proofs about coq/MChan.v.
-   Part 1: the stranding witness (finding F-C11), by computation. *)
+   Part 1: the stranding witness of the ORIGINAL one-list protocol (finding
+   F-C11, repaired in /repo by 30a0183), by computation on the model with
+   onelist = true.  Kept as a regression of the analysis: the same schedule on
+   the two-list model (and on the code in /repo) completes (strand_fixed_completes). *)
 From Coq Require Import List ZArith Lia Bool Arith.
 From LF Require Import Conc T1K MChan.
 Import ListNotations.
@@ -40,9 +43,9 @@ Definition strand_progs : list (list mop) :=
 Definition strand_sched : list nat :=
   [0; 0; 0; 0; 0; 0; 0; 0; 0; 0; 1; 1; 1; 1; 1; 1; 1; 1; 1; 1; 2; 2; 2; 2; 2; 2; 2; 2; 2; 2; 2; 2; 2; 2; 0; 0; 0; 0; 0; 0; 0; 0; 0; 0; 0; 0; 0; 1; 1; 1; 1; 1; 1; 1; 1; 1; 1; 1; 1; 1; 3; 3; 3; 3; 3; 3; 3; 3; 3; 3; 3; 3; 3; 3; 3; 3; 3; 3; 3; 3; 3; 3; 3; 3; 3; 3; 3; 3; 3; 3; 3; 3; 3; 3; 3; 3; 3; 3; 3; 3; 3; 3; 3; 3; 4; 4; 4; 4; 4; 4; 4; 4; 4; 4; 4; 4; 4; 4; 0; 0; 0; 0; 0; 0; 0; 0; 0; 0; 0; 0; 0; 0; 0; 0; 0; 0; 4; 4; 4; 4; 4; 4; 4; 4; 4; 4; 4; 4; 4; 4; 4; 4; 4; 4; 4; 4; 4; 4; 4; 4; 4; 4; 4; 4; 4; 4; 4; 4; 3; 3; 3; 3; 3; 3; 3; 3; 3; 3; 3; 3; 3; 3; 3; 3; 3; 1; 1; 1; 1; 1; 1; 1; 1; 1; 1; 1; 1; 1; 1; 1; 1; 1; 1; 3; 3; 3; 3; 3; 3; 3; 3; 3; 3; 3; 3; 3; 3; 3; 3; 3; 3; 3; 4; 4; 4; 4; 4; 4; 4; 4; 4; 4; 4; 4; 4; 4; 4; 4; 4]%nat.
 
-Definition strand_state : st := fst (run_sched M (init 1 strand_progs) strand_sched).
+Definition strand_state : st := fst (run_sched M (init_ol true 1 strand_progs) strand_sched).
 
-Lemma strand_reachable : reachable M (init 1 strand_progs) strand_state.
+Lemma strand_reachable : reachable M (init_ol true 1 strand_progs) strand_state.
 Proof. apply run_sched_reachable. apply reach_init. Qed.
 
 Lemma strand_facts :
@@ -73,3 +76,12 @@ Proof.
     + split; [rewrite Hn; lia|]. split; [exact H2|]. exists 301. exact Ha2.
     + unfold occupancy. rewrite Hh, Hl, Hs. lia.
 Qed.
+
+(* the same programs and schedule on the repaired (two-list) protocol: after the schedule and
+   a round-robin drain every fiber has finished *)
+Definition strand_fixed_end : st :=
+  fst (drain M 3000 (fst (run_sched M (init 1 strand_progs) strand_sched)) 3000).
+Lemma strand_fixed_completes :
+  map (fun t => status_of strand_fixed_end t) [0;1;2;3;4]%nat = [SDone; SDone; SDone; SDone; SDone] /\
+  cell (mem strand_fixed_end) c_high = 6 /\ cell (mem strand_fixed_end) c_low = 6.
+Proof. vm_compute. repeat split; reflexivity. Qed.
